@@ -18,6 +18,7 @@ import Np.Model.Div
 import Np.Model.Text
 import Np.Model.Print
 import Np.Model.PrintText
+import Np.Model.DivArr
 /-! line-protocol driver: one JSON case per line on stdin, the model's answer per line on stdout -/
 open Lean Np Np.Shape
 
@@ -382,15 +383,12 @@ def runCase (j : Json) : E Json := do
     let a ← parseArr (← j.getObjVal? "a")
     let b ← parseArr (← j.getObjVal? "b")
     let fuel := ((j.getObjVal? "fuel").toOption.bind (·.getNat?.toOption)).getD 500
-    withBcast2 a b fun s pa pb => do
-      let ab := alignPair pa pb
-      let m := size s
-      let elems := (List.finRange m).map fun i =>
-        let f := ab.1.terms.map fun t => (t.1, t.2.get i)
-        let d := ab.2.terms.map fun t => (t.1, t.2.get i)
-        Div.divmod fuel f d
-      let showTerms := fun (ts : List (Expo × CRat)) => Json.arr (ts.map fun t => Json.arr #[toJson t.1, showCoef t.2]).toArray
-      pure (Json.mkObj [("status", "ok"), ("kind", "divmod"), ("shape", toJson s), ("names", toJson ab.1.names),
+    -- the array-level division of the model (Np/Model/DivArr.lean; specification in Np/Proofs/DivArr.lean)
+    let showTerms := fun (ts : List (Expo × CRat)) => Json.arr (ts.map fun t => Json.arr #[toJson t.1, showCoef t.2]).toArray
+    match divmodArr fuel a b with
+    | .error e => pure (showErr e)
+    | .ok (s, names, elems) =>
+      pure (Json.mkObj [("status", "ok"), ("kind", "divmod"), ("shape", toJson s), ("names", toJson names),
         ("elements", Json.arr (elems.map fun r => match r with
           | some qr => Json.mkObj [("q", showTerms qr.1), ("r", showTerms qr.2)]
           | none => Json.mkObj [("timeout", true)]).toArray)])
